@@ -46,7 +46,7 @@ def run(R):
         check_log_body(c, repo.func('spawnbase:SpawnBase._log'))
     with R.clause('D4', 'TYPE', floor=10, desc='the logged value has the API string type (decoder output / coerced send string)') as c:
         check_log_types(c, repo)
-    with R.clause('D5', 'ORDER', floor=3, desc='interact(): both directions are logged before being copied') as c:
+    with R.clause('D5', 'ORDER', floor=2, desc='interact(): both directions are logged before being copied') as c:
         check_interact(c, repo.func('pty_spawn:spawn.__interact_copy'))
 
 
@@ -337,7 +337,7 @@ def check_interact(c, f):
     ok, p = g.must_pass(rd[0], {n}, set(logs), skip_labels=('exc',))
     c.check(bool(logs) and ok, f, k, "what is copied to the user's stdout was logged as 'read' first", witness=g.describe_path(p) if p else None, tag='interact-read-logged')
     wr = cfg_nodes_with_call(f, lambda kk: callee_last(kk).endswith('__interact_writen'))
-    c.need(len(wr) >= 2, 'writes to the child not found')
+    c.need(len(wr) >= 1, 'writes to the child not found')
     kb = [m for m, rk in cfg_nodes_with_call(f, lambda rk: callee_last(rk).endswith('__interact_read') and 'STDIN' in norm(rk.args[0]))]
     c.need(len(kb) == 1, 'keyboard read not found')
     for m, wk in wr:
@@ -346,10 +346,16 @@ def check_interact(c, f):
                                                                   and is_const(lk.args[1], 'send'))
                                                or (callee_last(lk) == '_log_control' and lk.args and norm(lk.args[0]) == norm(dv)))]
         # accepted idiom: the log may be skipped when the data is empty (`if data:`)
+        # (any test outcome that implies the data is empty: `if data:` false, `if not escaped or data:` false, `if not data:` true ...)
+        from ..cfg import _local_atoms
         empties = set()
         for t in g.nodes:
-            if t.kind == 'test' and norm(t.ast) == norm(dv):
-                empties.add((t, 'false'))
+            if t.kind == 'test' and t.ast is not None:
+                for lab_ in ('true', 'false'):
+                    cs_ = []
+                    _local_atoms(t.ast, lab_ == 'true', cs_)
+                    if (norm(dv), False) in [(a_, v_) for a_, v_, nm_ in cs_]:
+                        empties.add((t, lab_))
         ok, p = g.must_pass(kb[0], {m}, set(slog), skip_labels=('exc',), through_edges=empties)
         c.check(bool(slog) and ok, f, wk, "what is sent to the child was logged as 'send' first (unless empty)",
                 witness=g.describe_path(p) if p else None, tag='interact-send-logged:L%d' % 0 if False else 'interact-send-logged:' + str(wr.index((m, wk))))
